@@ -8,12 +8,16 @@ import gen
 import qast
 from props.common import *
 
-TRUSTED_BASE = ['transcendental functions (libm), parseDate (dtparse), now(), and to_string of floats/containers are outside the model: such cases are counted as unmodelled',
+TRUSTED_BASE = ['transcendental functions (libm), parseDate (dtparse) on text other than RFC 3339 UTC, now(), and to_string of floats, dates, durations and of containers holding them or non-ASCII text are outside the model: such cases are counted as unmodelled',
                 'timeslice is checked on the implementation alone against Python integer arithmetic on RFC 3339 timestamps']
 ASSUMPTIONS = []
 
 POOL = [None, True, False, 0, 1, -1, 2, 10, 2**31, 2**53, -2**53, 2**53 + 1, 2**63 - 1, -2**63, 0.5, -0.5, 1.5, 2.5, 1e300, -1e300, 1e-300, 0.1, 1e15 + 0.5,
         '', 'a', 'b', 'B', 'ab', 'a b', '10', '9', 'é', 'true', [], [1], [2], [1, 2], [1, 'a'], [[1]], {}, {'p': 1}, {'p': 2}, {'p': 1, 'q': 2}, {'q': 1}]
+
+
+HEX_POOL = ['0x1f', '0x0', '7b', '0', '0x0040', '0000', '0x', '', 'x', '0x0x1f', '0X1F', '0Xff', 'ff', 'FF', '-0x1', '-ff', '+ff', '+', '-', '7fffffffffffffff', '8000000000000000',
+            '-8000000000000000', '-8000000000000001', ' 0x7b ', '\t1\t', '00x1', 'x0', '0x00', '0xx1', '1 2', 'g', '0x-1', 'DeadBeef', '0x0x', '00', 'é', 10, 255, 0, None, True, 1.5]
 
 
 def run_raw(query, lines, mode='json'):
@@ -134,6 +138,10 @@ def explore(ctx):
         full = qast.expr_text_full(e)
         q2 = '* | json | ' + (full + ' as r' if st[0] == 'let' else 'where ' + full)
         pairs.append((len(cases) - 1, q2))
+    # parseHex on a fixed pool of hexadecimal spellings (zero values, prefixes, signs, range ends), against the model
+    for i in range(0, len(HEX_POOL), 6):
+        hl = [json.dumps({'id': i + k, 'h': h}) + '\n' for k, h in enumerate(HEX_POOL[i:i + 6])]
+        cases.append(Case('hex%d' % i, STAR, [('json', None), ('let', ('call', 'parseHex', [('col', 'h', [])]), 'r')], hl, {'expr', 'hex'}))
     results = run_cases(cases)
     full_out = aglib.run_impl_many([(q2, cases[idx].inp, 'json', ()) for idx, q2 in pairs])
     prec_checked = 0
@@ -150,8 +158,18 @@ def explore(ctx):
             failures.append({'kind': 'spec', 'what': 'operator precedence/associativity: the expression and its fully parenthesised form evaluate differently',
                              'payload': payload(r, {'fully_parenthesised_query': q2, 'rows_fully_parenthesised': f['rows'][:10]})})
     nontrivial = set()
+    import re
     for r in results:
         c = r['case']
+        if 'hex' in c.tags and r['impl']['kind'] == 'rows':
+            # documented: parseHex converts a hexadecimal string, with or without the 0x prefix, to its integer value
+            got = {x.get('id'): x.get('r') for x in r['impl']['rows']}
+            for l in c.lines:
+                j = json.loads(l)
+                h = j['h']
+                if isinstance(h, str) and re.fullmatch(r'(0x)?[0-9a-fA-F]{1,15}', h) and got.get(j['id']) != int(h, 16):
+                    failures.append({'kind': 'spec', 'what': 'parseHex(%r) gives %r, not %d' % (h, got.get(j['id']), int(h, 16)),
+                                     'payload': payload(r, {'input_lines': [l]})})
         if r['impl']['kind'] in ('crash', 'hang', 'garbled'):
             failures.append({'kind': 'spec', 'what': 'expression evaluation did not run cleanly: %s' % r['impl']['kind'], 'payload': payload(r)})
         elif r['corr']:
